@@ -350,21 +350,6 @@ Section Codec.
   (** FrozenAngle's normalisation leaves a non-negative component below 360.0 alone *)
   Hypothesis Hanorm : forall b, (b < ANGLE_360)%N -> anorm b = b.
 
-  (** The values the wire type represents exactly. *)
-  Definition sval_rep (t : vtype) (v : sval) : Prop :=
-    match t, v with
-    | TInt, SvInt z => int32_ok z = true
-    | TFloat, SvFloat b => f32_ok b = true
-    | TBool, SvBool _ => True
-    | TTime, SvTime q => exists k, int32_ok k = true /\ q = fdiv (inject_Z k) (inject_Z (sc_time_div cfg))
-    | TColor, SvColor r g b a => byte_val_ok r && byte_val_ok g && byte_val_ok b && byte_val_ok a = true
-    | TVec2, SvVec l | TVec3, SvVec l | TVec4, SvVec l | TQuat, SvVec l =>
-        List.length l = arity t /\ forallb f32_ok l = true
-    | TAngle, SvVec l => List.length l = arity t /\ forallb (fun b => (b <? ANGLE_360)%N) l = true
-    | TMatrix, SvMat m => List.length m = 9%nat /\ forallb f32_ok m = true
-    | _, _ => False
-    end.
-
   Lemma cfg_parts : formats_match_wire_layout cfg = true /\ time_cfg_ok cfg = true /\ mat_cfg_ok cfg = true.
   Proof.
     pose proof Hcfg as H. unfold scalar_cfg_ok in H.
@@ -393,7 +378,7 @@ Section Codec.
   (** Every fixed-width value representable in its wire type is packed into exactly [calcsize] bytes and unpacked to
       the same value: integers, binary32 patterns, booleans, tick-exact times (through binary64 scaling and
       [round]), colours, vectors, angles in [0, 360), quaternions, and the 3x3 part of the padded 4x4 matrix. *)
-  Theorem scalar_codec_roundtrip_gen : forall t v, sval_rep t v ->
+  Theorem scalar_codec_roundtrip_gen : forall t v, sval_rep fdiv cfg t v ->
     exists bs, encode_sval fmul cfg t v = Some bs /\
                List.length bs = calcsize (wire_kinds t) /\
                decode_sval fdiv anorm cfg t bs = Some v.
